@@ -16,7 +16,7 @@ PY
   SEED_SRC=$src SEED_TAG=$tag python3 bin/seedeval.py $p $n $extra > /var/tmp/rg_${p}-${tag}${n}.json 2>&1
 }
 jobs_n=0
-for w in 1 2 3 4 5 6; do
+for w in 1 2 3 4 5 6 7 8; do
   tag="w$w-"; [ $w = 1 ] && tag=""
   for d in seeded/*; do
     b=$(basename $d); p=${b%%-*}; rest=${b#*-}
